@@ -59,7 +59,7 @@ def state_of(c, r):
 def make_init(c, rng):
     import rsatoolbox
     n_rdm, n = c['n_rdm'], c['n_cond']
-    pids = rng.sample(range(1, 9), n)
+    pids = rng.sample(range(1, max(9, n + 1)), n)
     rids = rng.sample(range(1, 9), n_rdm)
     conds = [rng.randrange(min(n, 4)) for _ in range(n)]
     grps = [rng.randrange(2) for _ in range(n)]
